@@ -130,7 +130,7 @@ def gen_case_refs(seed, i):
     files = [gen_recs(r) for _ in range(nruns)]
     two = r.random() < 0.5
     return {"files": files, "two_members": two, "hdr": r.choice(["b", "n", "a"]), "probe": gen_recs(r)[:3],
-            "empty_member": two and r.random() < 0.5}
+            "empty_member": two and r.random() < 0.5, "rerun": gen_recs(r) if r.random() < 0.5 else None}
 
 
 def case_refs(case):
@@ -210,4 +210,25 @@ def case_refs(case):
         elif mobs2[0]["lines"] != A["lines"]:
             res["oracle"].append({"what": "results reference used as a file name does not replay the member's data.csv",
                                   "got": mobs2[0]["lines"], "want": A["lines"]})
+        elif case.get("rerun"):
+            # the group gets a newer run of member A on changed data, addressed by a csvpaths reference (a partial re-run), on the
+            # same instance; the very same reference string must then replay the newer run's data.csv
+            import real_run
+
+            src = os.path.join("data", "in_rerun.csv")
+            realenv.write_csv(src, case["rerun"])
+            cp.file_manager.add_named_file(name="infile", path=src)
+            tick()
+            _c, _m, raised = RG.run_group(cp, "$g.csvpaths.A:to", "infile", "collect_paths")
+            lone, _ = real_run.run_single(g[0].replace("$[", f"${src}[", 1), "collect", policy=["raise", "collect"])
+            if raised or lone.get("raised") or not lone.get("lines"):
+                res.setdefault("notes", []).append(f"partial re-run not judged: {raised or lone.get('raised') or 'no lines'}")
+            else:
+                tick()
+                caller, mobs3, raised = RG.run_group(cp, "replay", "$g.results.2026-:last.A", "collect_paths")
+                if raised:
+                    res["oracle"].append({"what": f"results reference as file name raised {raised} after a partial re-run of the group"})
+                elif mobs3[0]["lines"] != lone["lines"]:
+                    res["oracle"].append({"what": "results reference with :last does not replay the most recent run's data.csv after a partial re-run",
+                                          "got": mobs3[0]["lines"], "want": lone["lines"]})
     return res
